@@ -247,3 +247,60 @@ func TestVerifWitness_DF1(t *testing.T) {
 		t.Fatalf("after set and clear of (3,5): rows(0) = %v, want none", got)
 	}
 }
+
+// DF3: bulk imports and setRow do not raise maxRowID, so maxRow/minRow never look at the new rows.
+func TestVerifWitness_DF3(t *testing.T) {
+	t.Run("bulkImport", func(t *testing.T) {
+		f, done := vgfWitnessFragment(t, vgfMutex, CacheTypeRanked, 100, defaultFragmentMaxOpN)
+		defer done()
+		if err := f.bulkImport([]uint64{0, 1}, []uint64{0, 0}, &ImportOptions{}); err != nil {
+			t.Fatal(err)
+		}
+		if r, n := f.maxRow(NewRow(0)); r != 1 || n != 1 {
+			t.Fatalf("column 0 holds row 1 after the import; maxRow(filter={0}) = (%d,%d), want (1,1)", r, n)
+		}
+	})
+	t.Run("setRow", func(t *testing.T) {
+		f, done := vgfWitnessFragment(t, vgfSet, CacheTypeRanked, 100, defaultFragmentMaxOpN)
+		defer done()
+		f.mustSetBits(0, 0)
+		if _, err := f.setRow(NewRow(0, 1), 3); err != nil {
+			t.Fatal(err)
+		}
+		if r, n := f.maxRow(NewRow(0, 1)); r != 3 || n != 2 {
+			t.Fatalf("maxRow(filter={0,1}) = (%d,%d) after setRow into row 3, want (3,2)", r, n)
+		}
+	})
+}
+
+// DF4: setRow with a source row that has no segment for this shard removes the row's containers but leaves the row
+// cache (and count cache, checksum, snapshot request) untouched.
+func TestVerifWitness_DF4(t *testing.T) {
+	f, done := vgfWitnessFragment(t, vgfSet, CacheTypeRanked, 100, defaultFragmentMaxOpN)
+	defer done()
+	f.mustSetBits(2, 65537)
+	if got := f.row(2).Columns(); len(got) != 1 {
+		t.Fatalf("row(2) = %v", got)
+	}
+	if _, err := f.setRow(NewRow(), 2); err != nil { // e.g. Store(Row(g=1), f=2) where g has no fragment in this shard
+		t.Fatal(err)
+	}
+	if got := f.row(2).Columns(); len(got) != 0 {
+		t.Fatalf("row 2 was replaced by an empty row, row(2) = %v", got)
+	}
+	if got := vgfTopIDs(t, f, 2); len(got) != 0 {
+		t.Fatalf("row 2 was replaced by an empty row, TopN(ids=[2]) = %v", got)
+	}
+}
+
+// DF5: clearRow reports changed=true for a row without bits when a clear left an empty container behind.
+func TestVerifWitness_DF5(t *testing.T) {
+	f, done := vgfWitnessFragment(t, vgfSet, CacheTypeRanked, 100, defaultFragmentMaxOpN)
+	defer done()
+	if err := f.bulkImport([]uint64{1}, []uint64{65536}, &ImportOptions{Clear: true}); err != nil {
+		t.Fatal(err)
+	}
+	if changed, err := f.clearRow(1); err != nil || changed {
+		t.Fatalf("clearRow(1) on a row that never held a bit = (%v,%v), want (false,nil)", changed, err)
+	}
+}
